@@ -27,6 +27,8 @@ def codecs(r, F):
         short = adt.rsplit("::", 1)[-1]
         r.require(ws == rs and "?" not in [x[2] for x in ws], w, short + " write==read", "writer and reader agree field by field: %s" % [(a, b, c) for a, b, c in ws],
                   "%s::write emits %s but %s::read consumes %s: recovery / lookups misinterpret what the flusher wrote" % (short, ws, short, rs), ln=w.lo)
+        straight = all(w.must_pass(0, [b.idx]) for b in w.calls_to(r"bytes::BufMut::put_\w+$")) and all(rd.must_pass(0, [b.idx]) for b in rd.calls_to(r"bytes::Buf::get_\w+$"))
+        r.require(straight, w, short + " every field on every path", "each put_/get_ of the record is executed unconditionally", "a field of %s is written / read only on some paths: the record's layout then depends on a runtime condition" % short, ln=w.lo)
         r.require(codec.total_width(ws) == width, w, short + " width", "%d bytes" % width, "%s serializes %d bytes, expected %d" % (short, codec.total_width(ws), width), ln=w.lo)
         # ranged writers: contiguous, non-overlapping
         rng = [x[0] for x in ws if x[0] is not None]
